@@ -149,7 +149,7 @@ Running == ctrl.t # "done" /\ steps < MaxSteps
 -----------------------------------------------------------------------------
 Init == /\ pi \in 1..Len(Progs)
         /\ ctrl = Run(Progs[pi].defs["main_"].body)
-        /\ kont = <<[f |-> "call", fn |-> "main_", dst |-> "", decl |-> FALSE, env |-> <<>>, defers |-> <<>>, ln |-> 0, gen |-> 0]>>
+        /\ kont = <<[f |-> "call", fn |-> "main_", dst |-> "", decl |-> FALSE, env |-> <<>>, defers |-> <<>>, ln |-> 0, gen |-> 0, tailret |-> FALSE]>>
         /\ env = <<>> /\ cells = <<>> /\ clos = <<>> /\ gens = <<>> /\ out = <<>> /\ steps = 0
         /\ stat = [finReg |-> 0, finRun |-> 0, defReg |-> 0, defRun |-> 0]
 
@@ -295,8 +295,26 @@ StepCall ==
          d == IF isM THEN Prog.defs[s.f] ELSE cl
          b == BindParams(d.params, r.vs, IF isM THEN <<>> ELSE cl.env, cells)
      IN /\ out' = out \o r.o
-        /\ kont' = <<[f |-> "call", fn |-> (IF isM THEN s.f ELSE cl.fn), dst |-> s.dst, decl |-> s.decl, env |-> env, defers |-> <<>>, ln |-> s.ln, gen |-> 0],
+        /\ kont' = <<[f |-> "call", fn |-> (IF isM THEN s.f ELSE cl.fn), dst |-> s.dst, decl |-> s.decl, env |-> env, defers |-> <<>>, ln |-> s.ln, gen |-> 0, tailret |-> FALSE],
                      SeqK(Tail(ctrl.s))>> \o kont
+        /\ env' = b.env /\ cells' = b.cells
+        /\ ctrl' = Run(d.body)
+  /\ Tick /\ UNCHANGED <<pi, clos, gens, stat>>
+
+(* `return f(args)`: a call in tail position. Its meaning is "call, then return the result"; the  *)
+(* implementation re-uses the caller's frame (tail-call optimisation), which must not be visible.  *)
+(* DEVIATION "tail_call_skips_defers": the defers registered by the caller are dropped.           *)
+StepTailCall ==
+  /\ Running /\ ctrl.t = "run" /\ ctrl.s # <<>> /\ Head(ctrl.s).k = "tcall"
+  /\ LET s == Head(ctrl.s)
+         r == EvArgs(s.args, env, cells, 1)
+         d == Prog.defs[s.f]
+         b == BindParams(d.params, r.vs, <<>>, cells)
+         ci == CallIdx
+         k0 == IF "tail_call_skips_defers" \in Deviations THEN [kont EXCEPT ![ci].defers = <<>>] ELSE kont
+     IN /\ out' = out \o r.o
+        /\ kont' = <<[f |-> "call", fn |-> s.f, dst |-> "", decl |-> FALSE, env |-> env, defers |-> <<>>, ln |-> s.ln, gen |-> 0, tailret |-> TRUE],
+                     SeqK(<<>>)>> \o k0
         /\ env' = b.env /\ cells' = b.cells
         /\ ctrl' = Run(d.body)
   /\ Tick /\ UNCHANGED <<pi, clos, gens, stat>>
@@ -415,7 +433,7 @@ UnwindCall ==
   /\ AtComp("call") /\ Top.defers = <<>> /\ Len(kont) > 1 /\ Top.gen = 0
   /\ LET c == ctrl.c f == Top IN
      /\ IF c.c \in {"normal", "ret"}
-        THEN /\ ctrl' = Comp(Normal(NilV))
+        THEN /\ ctrl' = IF f.tailret THEN Comp(Ret(c.v)) ELSE Comp(Normal(NilV))
              /\ Deliver(f, c.v, Tail(kont))
         ELSE /\ kont' = Tail(kont) /\ env' = f.env /\ UNCHANGED <<ctrl, cells>>     \* throw propagates (break/continue cannot cross a call)
   /\ Tick /\ UNCHANGED <<pi, clos, gens, out, stat>>
@@ -442,7 +460,7 @@ StepGenNext ==
   /\ Running /\ ctrl.t = "run" /\ ctrl.s # <<>> /\ Head(ctrl.s).k = "next"
   /\ LET s == Head(ctrl.s) gi == cells[Lookup(env, s.g)].v g == gens[gi] IN
      IF g.st = "susp"
-     THEN /\ kont' = g.kont \o <<[f |-> "call", fn |-> g.fn, dst |-> s.dst, decl |-> s.decl, env |-> env, defers |-> g.defers, ln |-> s.ln, gen |-> gi],
+     THEN /\ kont' = g.kont \o <<[f |-> "call", fn |-> g.fn, dst |-> s.dst, decl |-> s.decl, env |-> env, defers |-> g.defers, ln |-> s.ln, gen |-> gi, tailret |-> FALSE],
                                  SeqK(Tail(ctrl.s))>> \o kont
           /\ ctrl' = g.ctrl /\ env' = g.env
           /\ gens' = [gens EXCEPT ![gi].st = "run"]
@@ -512,7 +530,7 @@ GiveUp ==
 Done == ctrl.t = "done" /\ UNCHANGED vars
 
 Next == \/ StepSimple \/ StepDefer \/ StepLam \/ StepJump \/ StepIf \/ StepLoop \/ LoopStep
-        \/ StepTry \/ StepCall \/ BlockEnd
+        \/ StepTry \/ StepCall \/ StepTailCall \/ BlockEnd
         \/ UnwindSeq \/ UnwindLoop \/ UnwindTry \/ UnwindCatch \/ UnwindFin
         \/ RunDefer \/ UnwindCall
         \/ StepGenCreate \/ StepGenNext \/ StepForGen \/ StepYield \/ UnwindGenCall
